@@ -613,7 +613,7 @@ func simpleCfg(size int64, tpl string, val string, next, prev string) rcfg {
 
 var litPool = []string{"T", "hello", "Hd:", "\n", " ", "}}", "{", "x\ny", "total ", "-", "Menu\n"}
 var symPool = []string{"foo", "bar", "baz"}
-var titlePool = []string{"one", "two", "to_foo", "inky", "quit", "a b"}
+var titlePool = []string{"one", "two", "to_foo", "inky", "quit", "a b", "20% off", "salt %s", "100%d"}
 
 func genText(r *rand.Rand, n int, alphabet string) string {
 	b := make([]byte, n)
